@@ -154,14 +154,16 @@ Definition view_log (l : list (Z * kmsg)) : list omsg := map (fun om => (fst om,
 
 Definition opt_bytes_ok (o : option (list Z)) : bool :=
   match o with None => true | Some b => bytes_ok b && long_bytes b end.
-(* a plain (uncompressed) message: magic 0 or 1, attributes a byte with codec bits 0, any 64-bit timestamp,
+(* a plain (uncompressed) message: magic 0 or 1, attributes a byte with codec bits (0..2) all 0, any 64-bit timestamp,
    null / empty / any key and value, the whole message at most 2^31-1 bytes (MessageSize is an INT32) *)
 Definition wf_kmsg_common (m : kmsg) : bool :=
   ((k_magic m =? 0) || (k_magic m =? 1)) && in_u8 (k_attr m) && i64 (k_ts m)
   && opt_bytes_ok (k_key m) && opt_bytes_ok (k_value m) && (len (enc_kmsg m) <=? MAX32).
-Definition wf_kmsg (m : kmsg) : bool := wf_kmsg_common m && (Z.land (k_attr m) 3 =? 0).
+(* the protocol's codec field is attributes bits 0..2 (mask 7); afkak looks at bits 0..1 only (mask 3), which agrees
+   on every codec number the protocol defines *)
+Definition wf_kmsg (m : kmsg) : bool := wf_kmsg_common m && (Z.land (k_attr m) 7 =? 0).
 (* a compressed wrapper: codec bits [c] (1 gzip, 2 snappy) *)
-Definition wf_kwrap_c (c : Z) (m : kmsg) : bool := wf_kmsg_common m && (Z.land (k_attr m) 3 =? c).
+Definition wf_kwrap_c (c : Z) (m : kmsg) : bool := wf_kmsg_common m && (Z.land (k_attr m) 7 =? c).
 Definition wf_kwrap := wf_kwrap_c 1.
 
 (* [gz] is the compression function of the encoder, [c] the codec number every wrapper of the tree announces *)
